@@ -18,7 +18,10 @@ META = {
         "cJSON_SetValuestring on the member, or cJSON_ReplaceItemInObject with a new string item), a success answer is given only on "
         "paths on which every fallible part of that step was tested and found successful, and authentication "
         "compares crypt(given, stored) with the same member; "
-        "(5) hygiene: clear_password(passwd) on every exit of both entry points; password taint (shared with C08.4)."),
+        "(5) hygiene: clear_password(passwd) on every exit of both entry points; password taint (shared with C08.4); "
+        "(6) the role predicates the gates rely on (is_admin, is_readonly) answer true only on paths that established that the "
+        "user's member is the JSON value true; the file name remembered for the update (target of rename, directory of the "
+        "temporary file) is the result of realpath()/canonicalize_file_name()."),
     "not_decided": "crypt() behaviour, salt quality, the file system's own crash semantics (rename atomicity is POSIX's promise)",
     "assumptions": ["POSIX: rename(2) atomically replaces the target; fsync(2) makes the temporary file durable"],
 }
@@ -381,10 +384,70 @@ def clause5_hygiene(ctx, P):
     ctx.floor("C20.5 R-ORDER", 2)
 
 
+RESOLVERS = ("realpath", "canonicalize_file_name")
+
+
+def clause6_predicates_and_path(ctx, P, cg):
+    """(a) the role predicates the gates rely on answer true only for a JSON true; (b) the name the update renames over is
+    the resolved name of the file that was loaded"""
+    TRUE = Q.macro(P, "auth_file.c", "cJSON_True")
+    for fname, member in (("is_admin", "admin"), ("is_readonly", "readonly")):
+        f = P.fn("auth_file.c:" + fname)
+        bad = None
+        ntrue = 0
+        for v in Q.path_views(ctx, P, f):
+            rc = v.ret_const()
+            if rc == 0:
+                continue
+
+            def is_item(t):
+                return Q.is_call_to(t, "cJSON_GetObjectItem") and t[2][1] == ("str", member)
+
+            def says_true(a, p):
+                if a[0] == "cmp" and a[3] == ("const", TRUE) and Q._poleq(a, p):
+                    b = Q.is_field_load(a[2], "struct.cJSON", "type")
+                    return b is not None and is_item(b)
+                if a[0] == "truth" and Q.is_call_to(a[1], "cJSON_IsTrue") and is_item(a[1][2][0]) and p:
+                    return True
+                return False
+            if rc is not None and rc != 0:
+                ntrue += 1
+                if not v.has_atom(says_true):
+                    bad = v
+            else:
+                t = P.term(f, v.ret_operand()) if v.ret_operand() is not None else None
+                while t is not None and t[0] == "cmp" and t[3] == ("const", 0) and t[1] == "ne":
+                    t = t[2]
+                if t is not None and Q.is_call_to(t, "cJSON_IsTrue") and is_item(t[2][0]):
+                    ntrue += 1
+                else:
+                    bad = v
+        ctx.ob("C20.1 R-RET", f, "true-only-for-json-true", bad is None and ntrue > 0,
+               "%s() can answer true although the user's \"%s\" member is not the JSON value true (a present false, or any other "
+               "type, would grant the role)" % (fname, member), witness=bad.witness() if bad else None)
+    # (b)
+    n = 0
+    for f in P.own_functions():
+        if f.base != "auth_file.c":
+            continue
+        for i in f.all_insts():
+            if i.op == "store" and P.term(f, i.a[1]) == ("global", "password_file_name") and not P.is_null(i.a[0]):
+                n += 1
+                lv, _ = Q.leaves(P, f, i.a[0], through_loads=False)
+                ok = bool(lv) and all(Q.is_call_to(l, RESOLVERS) for l in lv)
+                ctx.ob("C20.2 R-PAIR", f, Q.ordinal_site(f, i, P) + ":live-path-is-resolved", ok,
+                       "the name remembered for the credential file (later the target of rename() and the directory of the temporary "
+                       "file) is not the resolved absolute path (%s): with a relative name and the daemon's chdir(\"/\"), or a "
+                       "symlink, the update replaces a different file than the one that is loaded" % ", ".join(fmt_term(l) for l in lv))
+    if n < 1:
+        raise AnalysisBroken("no store to password_file_name found")
+
+
 def run(ctx):
     for cfg in ctx.configs(["default"] if ctx.tier == "quick" else None):
         P, cg = cfg.P, cfg.cg
         clause1_auth(ctx, P)
+        clause6_predicates_and_path(ctx, P, cg)
         clause2_atomic(ctx, P, cg)
         clause3_write(ctx, P, cg)
         clause4_effective(ctx, P, cg)
